@@ -346,8 +346,15 @@ func (eng *Engine) blockEffects(b *ssa.BasicBlock, e effects, visiting map[*ssa.
 				e["next"] = true
 				e.addLayout(in.X.Type())
 			}
-		case *ssa.MakeMap, *ssa.MapUpdate:
-			e.union(allEffects())
+		case *ssa.MakeMap:
+			e["next"] = true
+			if sh := shapeOf(in.Type()); sh.ok {
+				e[sh.dom] = true
+			}
+		case *ssa.MapUpdate:
+			if sh := shapeOf(in.Map.Type()); sh.ok {
+				e[sh.dom], e[sh.val] = true, true
+			}
 		case *ssa.Convert:
 			if isString(in.X.Type()) != isString(in.Type()) {
 				e["next"] = true
